@@ -120,7 +120,7 @@ fn main() {
                 batches: if quick { 120 } else { 2500 },
                 workers: if quick { vec![4] } else { vec![1, 2, 4, 16] },
                 kinds: {
-                    let all = vec!["paths", "pathn", "pathw", "query", "pagq", "form", "json", "raw", "stream", "multi"];
+                    let all = vec!["paths", "pathn", "pathw", "pathsw", "query", "pagq", "form", "json", "raw", "stream", "multi"];
                     match args.extra.iter().position(|a| a == "--kinds").and_then(|i| args.extra.get(i + 1)) {
                         Some(k) => all.into_iter().filter(|x| k.split(',').any(|y| y == *x)).collect(),
                         None => all,
